@@ -94,6 +94,8 @@ def run_one(stratum, seed, index):
         return gen.big_run(seed, index)
     if stratum == "kwpairs":
         return gen.kwpair_run(seed, index)
+    if stratum == "sharedfile":
+        return gen.sharedfile_run(seed, index)
     if stratum == "inject":
         return gen.inject_template_run(seed, index)
     if stratum == "injectall":
@@ -564,6 +566,7 @@ def quick_plan(seed, args):
         ("fork3", list(range(gen.N_FORK3))),
         ("big", list(range(gen.N_BIG))),
         ("kwpairs", list(range(gen.N_KWPAIRS))),
+        ("sharedfile", list(range(gen.N_SHAREDFILE))),
         ("random", list(range(n_random))),
     ]
 
@@ -683,6 +686,7 @@ def thorough_batch(pool, seed, args, batch):
     tasks += list(chunks("fork3", seed, range(gen.N_FORK3), want_fp=True))
     tasks += list(chunks("big", seed, range(gen.N_BIG)))
     tasks += list(chunks("kwpairs", seed, range(gen.N_KWPAIRS)))
+    tasks += list(chunks("sharedfile", seed, range(gen.N_SHAREDFILE)))
     n_all = (gen.N_INJECT_TEMPLATES // len(gen.INJECT_NTH)) * gen.INJECT_ALL_CAP
     tasks += list(chunks("injectall", seed, range(n_all), size=CHUNK * 4))
     run_tasks(pool, tasks, batch, max_violating_chunks=60)
